@@ -30,6 +30,7 @@ type Obligation struct {
 
 // Engine translates one function (plus what it inlines) into one Script.
 type Engine struct {
+	calleeWrites string // vcWriteCount() of the callee whose postconditions are being evaluated
 	unrollCopies bool // contract option unroll-appends
 	callLog map[string]*callRecord // ghost call log of the function under contract
 	globalNames []string // declared addresses of package-level variables
